@@ -36,10 +36,49 @@ pub fn child(args: &[String]) {
     let (init, script) = scripts()[scen % scripts().len()].clone();
     let scratch = Scratch::new("live");
     let path = scratch.path().join(["log4rs.yaml", "log4rs.json", "log4rs.toml"][fmt]);
-    std::fs::write(&path, text_rate(&init, fmt, true).unwrap()).unwrap();
+    // every second round of scenarios the configured path is a symbolic link and an edit re-points it at a new
+    // file (how mounted configuration volumes are updated): what counts is the file *at the configured path*
+    let linked = (scen / 3) % 2 == 1;
+    let ext = ["yaml", "json", "toml"][fmt];
+    // modification times are set explicitly (version k: base + 10 k seconds): two writes within one tick of the
+    // filesystem clock would otherwise carry the same time, which the reloader's mtime shortcut cannot see by design
+    let stamp = |p: &std::path::Path, k: usize| {
+        let f = std::fs::OpenOptions::new().write(true).open(p).unwrap();
+        f.set_modified(std::time::SystemTime::UNIX_EPOCH + Duration::from_secs(1_700_000_000 + 10 * k as u64)).unwrap();
+    };
+    let write_version = move |dir: &std::path::Path, path: &std::path::Path, k: usize, text: Option<String>| {
+        if !linked {
+            match text {
+                Some(t) => {
+                    std::fs::write(path, t).unwrap();
+                    stamp(path, k);
+                }
+                None => {
+                    let _ = std::fs::remove_file(path);
+                }
+            }
+            return;
+        }
+        match text {
+            Some(t) => {
+                let target = dir.join(format!("version{}.{}", k, ext));
+                std::fs::write(&target, t).unwrap();
+                stamp(&target, k);
+                let tmp = dir.join("link.tmp");
+                let _ = std::fs::remove_file(&tmp);
+                std::os::unix::fs::symlink(&target, &tmp).unwrap();
+                std::fs::rename(&tmp, path).unwrap();
+            }
+            None => {
+                let _ = std::fs::remove_file(path);
+            }
+        }
+    };
+    write_version(scratch.path(), &path, 0, text_rate(&init, fmt, true));
     let events: Arc<Mutex<Vec<Value>>> = Arc::new(Mutex::new(vec![json!({"e": "reset", "v": init["v"], "r": init["r"], "scenario": scen})]));
     let st = Arc::new(Mutex::new(St { sleeps: 0, next_edit: 0, applies: 0, last_event: Instant::now() }));
     let (ev, st2, p2, sc2) = (events.clone(), st.clone(), path.clone(), script.clone());
+    let dir2 = scratch.path().to_path_buf();
     log4rs::verif::set_global_callback(Some(Arc::new(move |name: &str, arg: u64| {
         match name {
             "reloader.sleep" => {
@@ -52,12 +91,7 @@ pub fn child(args: &[String]) {
                 // order of events is the order of the trace
                 if s.sleeps % 2 == 1 && s.next_edit < sc2.len() {
                     let c = &sc2[s.next_edit];
-                    match text_rate(c, fmt, true) {
-                        Some(t) => std::fs::write(&p2, t).unwrap(),
-                        None => {
-                            let _ = std::fs::remove_file(&p2);
-                        }
-                    }
+                    write_version(&dir2, &p2, s.next_edit + 1, text_rate(c, fmt, true));
                     e.push(json!({"e": "edit", "k": c["k"], "v": c["v"], "r": c["r"], "m": 3 + s.next_edit}));
                     s.next_edit += 1;
                 }
